@@ -20,6 +20,7 @@ type SynthSpec struct {
 	Dups  int    `json:"dups"` // every Dups-th row repeats an earlier key (0 = none)
 	Big   int    `json:"big,omitempty"` // length of one huge cell in the last column of row 0 (needs ncols >= 2)
 	Groups int   `json:"groups,omitempty"` // >0: composite key (grp,id) with this many group values
+	Wide   int   `json:"wide,omitempty"`   // >0: every non-key cell is padded to this length (a block of 255 such rows decodes to tens of MB)
 }
 
 func (s SynthSpec) Build() (cols []string, pk []string, rows [][]string) {
@@ -58,6 +59,15 @@ func (s SynthSpec) Build() (cols []string, pk []string, rows [][]string) {
 		}
 		nc++
 	}
+	if s.Wide > 0 && s.Wide <= 65535 {
+		for i := range rows {
+			for j := 1; j < len(rows[i]); j++ {
+				if cols[j] != "id" && len(rows[i][j]) < s.Wide {
+					rows[i][j] += strings.Repeat("w", s.Wide-len(rows[i][j]))
+				}
+			}
+		}
+	}
 	if s.Big > 0 && s.Big <= 70000 && nc >= 2 && s.N > 0 {
 		rows[0][nc-1] = strings.Repeat("B", s.Big)
 	}
@@ -72,6 +82,9 @@ type C16Plan struct {
 	// diff/merge specifics
 	Edits  []Edit `json:"edits,omitempty"`
 	Edits2 []Edit `json:"edits2,omitempty"`
+	// merge: a third branch (its differ is a third goroutine feeding the merger); Order lists the three branches
+	Edits3 []Edit `json:"edits3,omitempty"`
+	Order  []int  `json:"order,omitempty"`
 	Consumer string `json:"consumer,omitempty"` // merge: "" drain first | "early" ask for columns right after the first message
 }
 
@@ -104,6 +117,38 @@ func init() {
 				if p.Kind == "merge" {
 					p.Edits, p.Edits2 = e1, e2
 					p.Consumer = Pick(r, []string{"", "early"})
+					if r.Chance(0.6) && p.Synth.N > 0 {
+						// three branches: which differ finishes first is up to the schedule, the result is not
+						usedRows := map[int]bool{}
+						for _, e := range append(append([]Edit{}, e1...), e2...) {
+							if e.Op == "setcell" {
+								usedRows[e.Row] = true
+							}
+						}
+						pkIdx, _ := pkIndices(cols, pk)
+						for k := r.Range(0, 3); k > 0; k-- {
+							row := r.Intn(p.Synth.N)
+							if usedRows[row] {
+								continue
+							}
+							usedRows[row] = true
+							for j := range cols {
+								if !contains(pkIdx, j) {
+									p.Edits3 = append(p.Edits3, Edit{Op: "setcell", Row: row, Col: j, Val: fmt.Sprintf("E3_%d", row)})
+									break
+								}
+							}
+						}
+						cells := make([]string, len(cols))
+						for j := range cells {
+							cells[j] = "n3"
+							if contains(pkIdx, j) {
+								cells[j] = fmt.Sprintf("Z3_%d", r.Intn(1000))
+							}
+						}
+						p.Edits3 = append(p.Edits3, Edit{Op: "addrow", Cells: cells})
+						p.Order = r.Perm(3)
+					}
 				}
 				if r.Chance(0.4) {
 					// transient, or persistent from the Nth read on (every goroutine of the pipeline then fails)
@@ -294,7 +339,7 @@ func execC16Diff(t *testing.T, p *C16Plan, res *Result) {
 // workers under the scheduler; optional injected read error.
 func execC16Merge(t *testing.T, p *C16Plan, res *Result) {
 	cols, pk, rows := p.Synth.Build()
-	for _, e := range append(append([]Edit{}, p.Edits...), p.Edits2...) {
+	for _, e := range append(append(append([]Edit{}, p.Edits...), p.Edits2...), p.Edits3...) {
 		if e.Op != "setcell" && e.Op != "delrow" && e.Op != "addrow" {
 			res.Invalid("row-level edits only")
 			return
@@ -312,11 +357,72 @@ func execC16Merge(t *testing.T, p *C16Plan, res *Result) {
 		res.Invalid("ingest: %v %v %v", e0, e1, e2)
 		return
 	}
+	others := [][]byte{b1, b2}
+	var want [][]string
+	if len(p.Edits3) > 0 {
+		_, _, r3 := ApplyEdits(cols, pk, rows, p.Edits3)
+		r3 = DedupeByKey(cols, pk, r3)
+		b3, e3 := ingestPlain(t, st, cols, pk, r3)
+		if e3 != nil {
+			res.Invalid("ingest: %v", e3)
+			return
+		}
+		all := [][]byte{b1, b2, b3}
+		if len(p.Order) != 3 {
+			p.Order = []int{0, 1, 2}
+		}
+		seenO := map[int]bool{}
+		others = nil
+		for _, o := range p.Order {
+			if o < 0 || o > 2 || seenO[o] {
+				res.Invalid("order")
+				return
+			}
+			seenO[o] = true
+			others = append(others, all[o])
+		}
+		// the three branches touch different rows and add different keys: the result is the union of their changes
+		okModel := true
+		touched := map[int]int{}
+		addKeys := map[string]bool{}
+		pkIdx, _ := pkIndices(cols, pk)
+		for _, e := range append(append(append([]Edit{}, p.Edits...), p.Edits2...), p.Edits3...) {
+			switch e.Op {
+			case "setcell":
+				touched[e.Row]++
+			case "addrow":
+				if len(e.Cells) != len(cols) || addKeys[keyStr(keyOf(e.Cells, pkIdx))] {
+					okModel = false
+				}
+				if okModel {
+					addKeys[keyStr(keyOf(e.Cells, pkIdx))] = true
+				}
+			default:
+				okModel = false
+			}
+		}
+		perBranch := map[int]int{}
+		for bi, es := range [][]Edit{p.Edits, p.Edits2, p.Edits3} {
+			for _, e := range es {
+				if e.Op == "setcell" {
+					if prev, ok := perBranch[e.Row]; ok && prev != bi {
+						okModel = false
+					}
+					perBranch[e.Row] = bi
+				}
+			}
+		}
+		if okModel {
+			_, _, want = ApplyEdits(cols, pk, rows, append(append(append([]Edit{}, p.Edits...), p.Edits2...), p.Edits3...))
+			want = DedupeByKey(cols, pk, want)
+		}
+		res.probe("three_branch_merge", 1)
+	}
 	// reference: 1 worker, unscheduled, fault-free
 	var ref *mergeOutcome
 	var rerr error
 	bo := Bubble(t, 0, func(mainDone *bool) {
-		ref, rerr = runMerge(t, st, base, [][]byte{b1, b2}, 0, "blocks", 1)
+		ref, rerr = runMerge(t, st, base, others, 0, "blocks", 1)
 		*mainDone = true
 	})
 	if bubbleProblems(res, bo, "reference merge") {
@@ -335,7 +441,7 @@ func execC16Merge(t *testing.T, p *C16Plan, res *Result) {
 		done := make(chan struct{})
 		go func() {
 			defer close(done)
-			out, merr = runMerge(t, st, base, [][]byte{b1, b2}, 0, "blocks", p.Cfg.Workers, p.Consumer)
+			out, merr = runMerge(t, st, base, others, 0, "blocks", p.Cfg.Workers, p.Consumer)
 			*mainDone = true
 		}()
 		sc.Run(done)
@@ -366,6 +472,39 @@ func execC16Merge(t *testing.T, p *C16Plan, res *Result) {
 	if len(out.Conflicts) != len(ref.Conflicts) {
 		res.Violate("outcome-differs", "%d conflicts vs %d sequentially", len(out.Conflicts), len(ref.Conflicts))
 		return
+	}
+	if want != nil && len(pk) > 0 {
+		// both runs let the Go runtime order the differ goroutines: also compare with what the branches add up to
+		tbl, got, err := ReadTableRaw(st, out.TableSum)
+		if err != nil {
+			res.Violate("table-unreadable", "%v", err)
+			return
+		}
+		if len(out.Conflicts) > 0 {
+			res.Violate("outcome-differs", "three branches with changes to different rows: %d conflicts reported", len(out.Conflicts))
+			return
+		}
+		pkIdx, _ := pkIndices(cols, pk)
+		exp := IngestModel(cols, NormaliseCSV(cols, want), pkIdx)
+		byName := make([][]string, len(got))
+		for i, r := range got {
+			byName[i] = make([]string, len(cols))
+			for j, c := range cols {
+				for x, tc := range tbl.Columns {
+					if tc == c {
+						byName[i][j] = r[x]
+					}
+				}
+			}
+		}
+		tpk := make([]uint32, len(pkIdx))
+		for i, u := range pkIdx {
+			tpk[i] = uint32(u)
+		}
+		if c, d := exp.Compare(cols, tpk, byName); c != "" {
+			res.Violate("outcome-differs", "merge of three branches (listed in order %v) is not the union of their changes: %s: %s", p.Order, c, d)
+			return
+		}
 	}
 	res.Nontrivial = true
 }
